@@ -77,6 +77,7 @@ func pClone(in []*pState) []*pState {
 }
 
 type parseInterp struct {
+	curField string // name of the parser field that holds the current token (role: the Token-typed field)
 	kindEnv []map[types.Object][]int
 	c        *Ctx
 	pk       *packagesPackage
@@ -128,6 +129,17 @@ func newParseInterp(c *Ctx) *parseInterp {
 		for _, d := range f.Decls {
 			if fd, ok := d.(*ast.FuncDecl); ok && fd.Body != nil && recvTypeName(fd) == "Parser" {
 				pi.methods[fd.Name.Name] = fd
+			}
+		}
+	}
+	// the current-token field by role: the field of Parser whose type is the token struct
+	pi.curField = "current"
+	if po, ok := sc.Lookup("Parser").(*types.TypeName); ok {
+		if st, ok := po.Type().Underlying().(*types.Struct); ok {
+			for i := 0; i < st.NumFields(); i++ {
+				if strings.HasSuffix(types.TypeString(st.Field(i).Type(), nil), "parser.Token") {
+					pi.curField = st.Field(i).Name()
+				}
 			}
 		}
 	}
@@ -343,11 +355,15 @@ func (pi *parseInterp) undecided(fr *pFrame, n ast.Node, what string) {
 
 func (pi *parseInterp) isCurrentType(e ast.Expr) bool {
 	se, ok := ast.Unparen(e).(*ast.SelectorExpr)
-	if !ok || se.Sel.Name != "Type" {
+	if !ok {
+		return false
+	}
+	// the kind field of the token: by type
+	if t := pi.info.TypeOf(se); t == nil || !strings.HasSuffix(types.TypeString(t, nil), "parser.TokenType") {
 		return false
 	}
 	in, ok := ast.Unparen(se.X).(*ast.SelectorExpr)
-	return ok && in.Sel.Name == "current"
+	return ok && in.Sel.Name == pi.curField
 }
 
 func (pi *parseInterp) kindOf(e ast.Expr) (int, bool) {
@@ -482,11 +498,16 @@ func (pi *parseInterp) isTokenFetch(s *ast.AssignStmt) bool {
 		return false
 	}
 	se, ok := ast.Unparen(s.Lhs[0]).(*ast.SelectorExpr)
-	if !ok || se.Sel.Name != "current" {
+	if !ok || se.Sel.Name != pi.curField {
 		return false
 	}
 	call, ok := ast.Unparen(s.Rhs[0]).(*ast.CallExpr)
-	return ok && strings.HasSuffix(fullStr(pi.c.P.Fset, call.Fun), ".Next")
+	if !ok {
+		return false
+	}
+	// a call that yields a token (the lexer's Next)
+	t := pi.info.TypeOf(call)
+	return t != nil && strings.HasSuffix(types.TypeString(t, nil), "parser.Token")
 }
 
 func (pi *parseInterp) mutates(n ast.Node, depth int) bool {
@@ -498,7 +519,7 @@ func (pi *parseInterp) mutates(n ast.Node, depth int) bool {
 				found = true
 			}
 			for _, l := range s.Lhs {
-				if se, ok := ast.Unparen(l).(*ast.SelectorExpr); ok && se.Sel.Name == "current" {
+				if se, ok := ast.Unparen(l).(*ast.SelectorExpr); ok && se.Sel.Name == pi.curField {
 					found = true
 				}
 			}
@@ -528,7 +549,7 @@ func (pi *parseInterp) mutatesMethod(m string, depth int) bool {
 						pi.mutMemo[n] = 1
 					}
 					for _, l := range s.Lhs {
-						if se, ok := ast.Unparen(l).(*ast.SelectorExpr); ok && se.Sel.Name == "current" {
+						if se, ok := ast.Unparen(l).(*ast.SelectorExpr); ok && se.Sel.Name == pi.curField {
 							pi.mutMemo[n] = 1
 						}
 					}
